@@ -312,6 +312,26 @@ pub mod inner {
     }
 }
 
+/// raw identifiers: a module, a type, fields and variants named with keywords
+pub mod r#mod {
+    use super::*;
+
+    #[derive(TypeInfo)]
+    #[allow(non_camel_case_types)]
+    pub struct r#struct {
+        pub r#type: u8,
+        pub r#fn: r#enum,
+    }
+
+    #[derive(TypeInfo)]
+    #[allow(non_camel_case_types)]
+    pub enum r#enum {
+        r#loop,
+        r#while(u8),
+        Plain { r#in: u16 },
+    }
+}
+
 #[derive(TypeInfo)]
 pub struct UsesInner {
     pub a: inner::N,
@@ -365,6 +385,7 @@ roots! {
     RecG<u16>,
     RecMut,
     UsesInner,
+    r#mod::r#struct,
     inner::deeper::GD<(u8, u16), Option<N>>,
     Vec<N>,
     (u8, N),
